@@ -242,6 +242,16 @@ class Processor:
                     value_format=value_format, tag=tag)
 
     # pylint: disable=locally-disabled,too-many-locals,too-many-branches
+    @staticmethod
+    def _is_empty_virtual_list(node: Any, parent: Any, parentref: Any) -> bool:
+        """Tell an empty result list from an empty Array of the document."""
+        if not (isinstance(node, list) and len(node) == 0):
+            return False
+        try:
+            return parent is None or parent[parentref] is not node
+        except (KeyError, IndexError, TypeError):
+            return True
+
     def _apply_change(
         self, yaml_path: YAMLPath, node_coord: NodeCoords, value: Any,
         **kwargs: Any
@@ -298,6 +308,11 @@ class Processor:
                 self._apply_change(
                     yaml_path, collector_node, value,
                     value_format=value_format, tag=tag, **kwargs)
+            return
+
+        if Processor._is_empty_virtual_list(
+                node_coord.node, node_coord.parent, node_coord.parentref):
+            # A slice (or Collector) which selected nothing names no node
             return
 
         last_segment = node_coord.path_segment
@@ -813,6 +828,10 @@ class Processor:
                 data=delete_nc)
 
             # Ensure the reference exists before attempting to delete it
+            if Processor._is_empty_virtual_list(node, parent, parentref):
+                # A slice (or Collector) which selected nothing:  its
+                # coordinates name where it starts, not a node to delete
+                continue
             if (isinstance(node, list) and len(node) > 0
                     and isinstance(node[0], NodeCoords)):
                 self._delete_nodes(node)
